@@ -17,6 +17,7 @@ CONSTANTS B = 3
   MaxTotal = 0
   MaxDepth = 1
   Wide = FALSE
+  WideSpaces = {}
   NotdefOn = FALSE
   MaxRect = 2
 INVARIANTS RectOK EmbedOK
